@@ -69,6 +69,80 @@ def check_seed(r, k, seed, others=(1, 12345)):
     r.out.add(tuple(rows[0]))
 
 
+def _forked_history(seq):
+    """Run the calls of seq, in order, in a child forked from this process (which has never called
+    create_random_shuffles), and return one digest per call.  The child serves this one history only,
+    so a state is exactly the call history that reaches it."""
+    import os, pickle, hashlib
+    rd, wr = os.pipe()
+    pid = os.fork()
+    if pid == 0:
+        code = 0
+        try:
+            import dsw
+            os.close(rd)
+            out = []
+            for k, seed in seq:
+                st, t, _ = brun(dsw.create_random_shuffles, observed_length=k, random_seed=seed)
+                if st != 'ok':
+                    out.append('raised:' + repr(t)[:80])
+                else:
+                    a = np.ascontiguousarray(np.asarray(t), dtype=np.int64)
+                    out.append('%s:%s' % (list(a.shape), hashlib.sha1(a.tobytes()).hexdigest()))
+            with os.fdopen(wr, 'wb') as f:
+                pickle.dump(out, f)
+        except BaseException:
+            code = 1
+        finally:
+            os._exit(code)
+    os.close(wr)
+    with os.fdopen(rd, 'rb') as f:
+        data = f.read()
+    os.waitpid(pid, 0)
+    return pickle.loads(data) if data else None
+
+
+_ALONE = {}
+
+
+def check_hist(r, seq):
+    """Same seed, same table, over call histories: every call of the history must return the table
+    the same call returns when it is the only call a fresh process ever makes (differential oracle,
+    no expected value written by hand).  Calls with seed None only move the global random state."""
+    seq = [tuple(x) for x in seq]
+    case = {'history': [list(x) for x in seq]}
+    for c in seq:
+        if c[1] is not None and c not in _ALONE:
+            got = _forked_history([c])
+            _ALONE[c] = got[0] if got else 'child-failed'
+    got = _forked_history(seq)
+    r.trans += len(seq)
+    r.evals += 1
+    r.states += 1
+    r.ctr['call_histories'] += 1
+    if got is None:
+        r.v('C18|create_random_shuffles|history|child-failed', 'hist', case)
+        return
+    for i, (c, g) in enumerate(zip(seq, got)):
+        if c[1] is None:
+            if g.startswith('raised'):
+                r.v('C18|create_random_shuffles|history|raised', 'hist', dict(case, at=i), None, g)
+            continue
+        if g != _ALONE[c]:
+            r.v('C18|create_random_shuffles|same-seed-different-table|after-a-history-of-other-calls', 'hist', dict(case, at=i), _ALONE[c], g,
+                'call %d of the history (k=%d, seed=%r) differs from the same call made alone in a fresh process' % (i, c[0], c[1]))
+    if len(set(got)) > 1:
+        r.nontriv += 1
+
+
+def _w_hist(chunk):
+    r = core.Res()
+    for seq in chunk:
+        check_hist(r, seq)
+    r.sample({'history': [list(x) for x in chunk[-1]]}, 1)
+    return r
+
+
 def one_vertex_graph(pattern):
     """Order-1 accessor whose row 0 has the live pattern; the other rows are complete."""
     G = O.complete(1)
@@ -183,6 +257,9 @@ def check_case(r, kind, case):
     if kind == 'walks':
         check_walks(r, case['graph'], tuple(case['row']))
         return
+    if kind == 'hist':
+        check_hist(r, case['history'])
+        return
     if kind == 'seed':
         check_seed(r, case['k'], case['seed'])
     else:
@@ -216,6 +293,11 @@ def run(ctx):
     from ..observe import install
     import dsw
     install([dsw.spiderweb, dsw.graphized, dsw.operation])
+    # call histories first: the workers are forked before this process has made a single call
+    letters = [(k, s_) for k in (range(1, 7) if ctx.quick else range(1, 8)) for s_ in ((0, 3) if ctx.quick else (0, 3, 2 ** 32 - 1))] + [(2, None)]
+    hists = [list(h) for n in (2, 3) for h in itertools.product(letters, repeat=n)]
+    ctx.pmap(_w_hist, core.chunks_of(hists, 24))
+    ctx.guard('call histories', ctx.res.ctr['call_histories'] == len(hists))
     seeds = list(range(256 if ctx.quick else 1024)) + [2021, 2 ** 31 - 1, 2 ** 32 - 1]
     cases = [(k, s) for k in range(1, 7) for s in (seeds if k <= 4 else seeds[:16 if ctx.quick else 128] + seeds[-3:])]
     cases.sort(key=lambda c: -c[0])
@@ -223,7 +305,7 @@ def run(ctx):
     dig = [(p, perm) for p in range(1, 16) for perm in U.PERMS]
     ctx.pmap(_w_digit, core.chunks_of(dig, 12))
     ctx.pmap(_w_walks, core.chunks_of([(gi, perm) for gi in range(len(MIXED)) for perm in U.PERMS], 6))
-    ctx.bounds = {'multi_step': '4 mixed-degree order-1 graphs x 24 constant-row tables x 4 starts x all messages of 1..5 bits', 'k': [1, 6], 'seeds': '0..%d + 2021, 2^31-1, 2^32-1 (k>=5: first %d)' % (len(seeds) - 4, 16 if ctx.quick else 128),
+    ctx.bounds = {'call_histories': 'all %d sequences of 2 and 3 calls over %d letters (k x seed, plus one seed-None call), each in its own forked process, every table compared with the same call made alone in a fresh process' % (len(hists), len(letters)), 'multi_step': '4 mixed-degree order-1 graphs x 24 constant-row tables x 4 starts x all messages of 1..5 bits', 'k': [1, 6], 'seeds': '0..%d + 2021, 2^31-1, 2^32-1 (k>=5: first %d)' % (len(seeds) - 4, 16 if ctx.quick else 128),
                   'digit_map': 'all 15 live patterns x 24 rows x every digit, both modes'}
     ctx.rule = ('one case = (k, seed): shape, rows are permutations, same seed same table also when interleaved with other '
                 'seeds, fresh array, no output, module state unchanged; or one (live pattern, table row): every digit on the real '
